@@ -107,7 +107,7 @@ def law_inferred_charge(ch):
 
 
 LAWS = [
-    Law("program", law_program, quick=3000, thorough=60000,
+    Law("program", law_program, quick=3000, thorough=30000,
         doc="operation histories; independent validity audit after every "
             "step"),
     Law("inferred_charge", law_inferred_charge, quick=600, thorough=6000,
